@@ -3114,10 +3114,8 @@ Import PrettyJ.
 
 Lemma nolf_trim s : nolf s = true -> nolf (trim_right_spaces s) = true.
 Proof.
-  induction s as [|c s IH]; intro H; [reflexivity|]. cbn [nolf forallb] in H. apply andb_true_iff in H as [Hc Hs].
-  cbn [trim_right_spaces]. specialize (IH Hs). destruct (trim_right_spaces s) as [|x r].
-  - destruct (N.eqb c SPACE || N.eqb c CR); [reflexivity|]. cbn [nolf forallb]. rewrite Hc. reflexivity.
-  - cbn [nolf forallb] in *. rewrite Hc. exact IH.
+  intro H. destruct (trim_right_spaces_prefix s) as [t Ht]. rewrite Ht in H.
+  unfold nolf in *. rewrite forallb_app in H. apply andb_true_iff in H. exact (proj1 H).
 Qed.
 
 Lemma NLF_snoc cs c : NLF cs -> nolf c = true -> NLF (cs ++ [c]).
